@@ -8,6 +8,7 @@ import (
 	"flag"
 	"fmt"
 	"hash/fnv"
+	"math"
 	"math/rand"
 	"os"
 	"os/exec"
@@ -17,6 +18,7 @@ import (
 	"strconv"
 	"strings"
 	"sync"
+	"sync/atomic"
 	"time"
 )
 
@@ -116,7 +118,57 @@ func Start(id, level string) *Run {
 	}
 	r.loadFindings()
 	fmt.Printf("[%s] tier=%s seed=%d GOMAXPROCS=%d sub=%q\n", id, tier, seed, runtime.GOMAXPROCS(0), r.SubMode)
+	go r.memGuard()
 	return r
+}
+
+// MemGuardInfo, when set (a func() string), describes the inputs in flight; the memory guard puts it
+// into the violation record.
+var MemGuardInfo atomic.Value
+
+// memGuard: the sandbox has no memory limit, and a hostile input that makes the code under test
+// allocate from an attacker-controlled number takes the whole machine down (OOM killer) before any
+// other monitor speaks. The guard watches the resident set of the check process and turns a blow-up
+// into an ordinary violation with a replay file. Limit: $VERIF_MEM_LIMIT_GB (default 24), far above
+// what any check needs on a healthy tree (the largest measured is a few GB under -race).
+func (r *Run) memGuard() {
+	limitGB := 24.0
+	if s := os.Getenv("VERIF_MEM_LIMIT_GB"); s != "" {
+		if v, err := strconv.ParseFloat(s, 64); err == nil && v > 0 {
+			limitGB = v
+		}
+	}
+	page := float64(os.Getpagesize())
+	var peak float64
+	for {
+		time.Sleep(25 * time.Millisecond)
+		b, err := os.ReadFile("/proc/self/statm")
+		if err != nil {
+			return
+		}
+		f := strings.Fields(string(b))
+		if len(f) < 2 {
+			return
+		}
+		pages, _ := strconv.ParseFloat(f[1], 64)
+		gb := pages * page / (1 << 30)
+		if gb > peak {
+			peak = gb
+			r.mu.Lock()
+			r.notes["peak_rss_gb"] = math.Round(peak*100) / 100
+			r.mu.Unlock()
+		}
+		if gb > limitGB {
+			info := ""
+			if f, ok := MemGuardInfo.Load().(func() string); ok && f != nil {
+				info = f()
+			}
+			r.Violation(Violation{Sub: "memory-blowup", Fields: map[string]any{},
+				What:    fmt.Sprintf("resident memory of the check process reached %.1f GB (guard %.0f GB): the code under test allocates without bound; in flight: %s", gb, limitGB, info),
+				Witness: map[string]any{"rss_gb": gb, "in_flight": info}})
+			r.Finish()
+		}
+	}
 }
 
 func (r *Run) loadFindings() {
